@@ -711,38 +711,36 @@ void DOMDocumentImpl::removeRange(DOMRangeImpl* range)
 */
 bool DOMDocumentImpl::isKidOK(const DOMNode *parent, const DOMNode *child)
 {
-      static int kidOK[14];
-
-      if (kidOK[DOMNode::ATTRIBUTE_NODE] == 0)
-      {
-          kidOK[DOMNode::DOCUMENT_NODE] =
-              1 << DOMNode::ELEMENT_NODE |
-              1 << DOMNode::PROCESSING_INSTRUCTION_NODE |
-              1 << DOMNode::COMMENT_NODE |
-              1 << DOMNode::DOCUMENT_TYPE_NODE;
-
-          kidOK[DOMNode::DOCUMENT_FRAGMENT_NODE] =
-              kidOK[DOMNode::ENTITY_NODE] =
-              kidOK[DOMNode::ENTITY_REFERENCE_NODE] =
-              kidOK[DOMNode::ELEMENT_NODE] =
+      // Constant table (indexed by DOMNode::NodeType), initialised statically: filling it lazily on
+      // first use was a data race between threads building their own documents.
+      static const int elemKids =
               1 << DOMNode::ELEMENT_NODE |
               1 << DOMNode::PROCESSING_INSTRUCTION_NODE |
               1 << DOMNode::COMMENT_NODE |
               1 << DOMNode::TEXT_NODE |
               1 << DOMNode::CDATA_SECTION_NODE |
               1 << DOMNode::ENTITY_REFERENCE_NODE;
+      static const int kidOK[14] = {
+          0,                                            // (no node type 0)
+          elemKids,                                     // ELEMENT_NODE
+          1 << DOMNode::TEXT_NODE |
+              1 << DOMNode::ENTITY_REFERENCE_NODE,      // ATTRIBUTE_NODE
+          0,                                            // TEXT_NODE
+          0,                                            // CDATA_SECTION_NODE
+          elemKids,                                     // ENTITY_REFERENCE_NODE
+          elemKids,                                     // ENTITY_NODE
+          0,                                            // PROCESSING_INSTRUCTION_NODE
+          0,                                            // COMMENT_NODE
+          1 << DOMNode::ELEMENT_NODE |
+              1 << DOMNode::PROCESSING_INSTRUCTION_NODE |
+              1 << DOMNode::COMMENT_NODE |
+              1 << DOMNode::DOCUMENT_TYPE_NODE,         // DOCUMENT_NODE
+          0,                                            // DOCUMENT_TYPE_NODE
+          elemKids,                                     // DOCUMENT_FRAGMENT_NODE
+          0,                                            // NOTATION_NODE
+          0
+      };
 
-          kidOK[DOMNode::ATTRIBUTE_NODE] =
-              1 << DOMNode::TEXT_NODE |
-              1 << DOMNode::ENTITY_REFERENCE_NODE;
-
-          kidOK[DOMNode::PROCESSING_INSTRUCTION_NODE] =
-              kidOK[DOMNode::COMMENT_NODE] =
-              kidOK[DOMNode::TEXT_NODE] =
-              kidOK[DOMNode::CDATA_SECTION_NODE] =
-              kidOK[DOMNode::NOTATION_NODE] =
-              0;
-      }
       int p=parent->getNodeType();
       int ch = child->getNodeType();
       return ((kidOK[p] & 1<<ch) != 0) ||
